@@ -155,6 +155,7 @@ struct simfd {
 	int kind, state;
 	/* epoll registration */
 	int registered;
+	uint32_t reg_events; /* the mask given to epoll_ctl: decides what is reported (EPOLLRDHUP only on request, no EPOLLET = level triggered) */
 	epoll_data_t data;
 	int edge; /* an unreported edge is pending */
 	unsigned long edge_seq;
@@ -347,6 +348,16 @@ static void raise_edge(struct simfd *f)
 		f->edge = 1;
 		f->edge_seq = edge_counter++;
 	}
+}
+
+static uint32_t readiness(const struct simfd *f);
+
+/* what epoll_wait() reports for a registration: its readiness filtered by the requested mask */
+static uint32_t reported(const struct simfd *f)
+{
+	uint32_t m = readiness(f);
+	if (f->kind == K_STREAM && (f->eof || f->rst) && (f->reg_events & EPOLLRDHUP)) m |= EPOLLRDHUP;
+	return m & (f->reg_events | EPOLLERR | EPOLLHUP);
 }
 
 static uint32_t readiness(const struct simfd *f)
@@ -815,6 +826,7 @@ int __wrap_epoll_ctl(int epfd, int op, int fd, struct epoll_event *event)
 			return -1;
 		}
 		f->registered = 1;
+		f->reg_events = event->events;
 		f->data = event->data;
 		f->edge = 0;
 		if (readiness(f) != 0) raise_edge(f); /* Linux reports current readiness on ADD */
@@ -833,6 +845,8 @@ int __wrap_epoll_ctl(int epfd, int op, int fd, struct epoll_event *event)
 			return -1;
 		}
 		f->data = event->data;
+		f->reg_events = event->events;
+		if (readiness(f) != 0) raise_edge(f); /* EPOLL_CTL_MOD re-arms */
 		return 0;
 	default:
 		errno = EINVAL;
@@ -1092,8 +1106,18 @@ static int hexval(int c)
 	return -1;
 }
 
+/* registrations without EPOLLET are level triggered: ready means reportable, again and again */
+static void refresh_level_triggered(void)
+{
+	for (int fd = SIM_FD_BASE; fd < next_fd; fd++) {
+		struct simfd *f = &fds[fd];
+		if (f->state == S_OPEN && f->registered && !(f->reg_events & EPOLLET) && reported(f) != 0) raise_edge(f);
+	}
+}
+
 static void put_pending(void)
 {
+	refresh_level_triggered();
 	ds_put(&out, "\"pending\":[");
 	int first = 1;
 	for (int fd = SIM_FD_BASE; fd < next_fd; fd++) {
@@ -1207,6 +1231,7 @@ static void harvest(const char *line)
 {
 	int cand[1024];
 	int n = 0;
+	refresh_level_triggered();
 	long max = arg_long(line, "max=", batch_max);
 	if (max > batch_max || max < 0) max = batch_max;
 	const char *order = strstr(line, "order=");
@@ -1256,7 +1281,7 @@ static void harvest(const char *line)
 	ds_clear(&delivered);
 	for (int i = 0; i < n; i++) {
 		struct simfd *f = &fds[cand[i]];
-		uint32_t m = readiness(f);
+		uint32_t m = reported(f);
 		if (m == 0) m = EPOLLIN; /* spurious wake-up */
 		batch_out[i].events = m;
 		batch_out[i].data = f->data;
